@@ -57,15 +57,16 @@ def run(ctx):
     r = ctx.tlc_mc("BTreeNodes.tla", "BTreeNodes_quick.cfg", timeout=900, coverage=True)
     if r.get("never_enabled"):
         raise vlib.Infra("vacuous: actions never enabled in BTreeNodes_quick: %s" % r["never_enabled"])
-    ctx.tlc_mc("BTreeNodes.tla", "BTreeNodes_sepmin.cfg", timeout=900)
     if ctx.thorough():
+        ctx.tlc_mc("BTreeNodes.tla", "BTreeNodes_sepmin.cfg", timeout=900)
         ctx.tlc_mc("BTreeNodes.tla", "BTreeNodes_three.cfg", timeout=3000)
         ctx.tlc_mc("BTreeNodes.tla", "BTreeNodes_thorough.cfg", timeout=3000)
         ctx.tlc_mc("BTreeNodes.tla", "BTreeNodes_thorough3.cfg", timeout=3000)
     # anti-vacuity: the two classic path bugs must break the model (key == limit kept in the left
     # leaf; right-most child not inheriting its ancestor's limit)
     ctx.tlc_mc("BTreeNodes.tla", "BTreeNodes_dev_le.cfg", timeout=600, expect_violation="ModifyAssertsOK", count=False)
-    ctx.tlc_mc("BTreeNodes.tla", "BTreeNodes_dev_inherit.cfg", timeout=600, expect_violation="ModifyAssertsOK", count=False)
+    if ctx.thorough():
+        ctx.tlc_mc("BTreeNodes.tla", "BTreeNodes_dev_inherit.cfg", timeout=600, expect_violation="ModifyAssertsOK", count=False)
     # 2. conformance
     drv = ctx.go_build("btree")
     trace = ctx.work + "/btree.ndjson"
